@@ -67,6 +67,7 @@ type resEntry struct {
 	Text   string
 	Eds    string   // clusters: the EDS resource name this cluster needs ("" = not an EDS cluster)
 	Routes []string // listeners: the RDS route names referenced
+	Alias  []string // WDS: the aliases the server attached (addresses of the workload / service)
 }
 
 type held map[string]map[string]resEntry // type -> name -> entry
@@ -88,7 +89,11 @@ type envoy struct {
 	delta    bool
 	nodeID   string
 	meta     *model.NodeMetadata
-	explicit bool // delta: subscribe to "*" explicitly instead of the legacy empty subscription
+	explicit bool              // delta: subscribe to "*" explicitly instead of the legacy empty subscription
+	zt       string            // "" (Envoy) | wildcard | ondemand: a ztunnel speaking delta WDS (Address type)
+	want     []string          // ztunnel on-demand: the names explicitly subscribed (sorted)
+	unsubbed map[string]bool   // ztunnel on-demand: names explicitly unsubscribed and not subscribed again
+	stale    map[string]string // ztunnel reconnect: versions to present instead of the retained ones (name -> version)
 
 	mu      sync.Mutex
 	held    held
@@ -118,12 +123,13 @@ type stream struct {
 	// everything below is guarded by e.mu
 	sentNode    bool
 	dead        bool
-	resps       map[string]int  // responses per type on this stream
-	reqs        map[string]int  // requests per type on this stream
+	resps       map[string]int // responses per type on this stream
+	reqs        map[string]int // requests per type on this stream
 	removedSeen map[string]map[string]bool
 	nResp       int
-	cutAfter    int  // kill the stream at the cutAfter-th response (0 = never)
-	cutDrop     bool // ... without applying that response (lost in transit)
+	cutAfter    int               // kill the stream at the cutAfter-th response (0 = never)
+	cutDrop     bool              // ... without applying that response (lost in transit)
+	cutErr      bool              // ... and Send reports the failure to the server (failed send)
 	nonces      map[string]string // nonce of the last response per type on THIS stream (a nonce is per stream)
 	edsDue      bool              // a CDS response arrived on this stream and no EDS response since
 	reconnect   bool
@@ -215,6 +221,9 @@ func (e *envoy) ready() bool {
 	if s == nil || s.dead {
 		return true
 	}
+	if e.zt != "" {
+		return s.resps["WDS"] > 0
+	}
 	for _, t := range []string{"CDS", "LDS"} {
 		if s.resps[t] == 0 {
 			return false
@@ -298,8 +307,11 @@ func (s sotwStream) Send(resp *discovery.DiscoveryResponse) error {
 		e.applySotw(s.stream, resp)
 	}
 	if stop {
-		s.logf("CUT after response %d applied=%v", s.nResp, apply)
+		s.logf("CUT at response %d (%s) applied=%v failed-send=%v", s.nResp, shortType(resp.TypeUrl), apply, s.cutErr)
 		s.kill()
+		if !apply && s.cutErr {
+			return errClosed
+		}
 	}
 	return nil
 }
@@ -318,7 +330,7 @@ func (e *envoy) applySotw(s *stream, resp *discovery.DiscoveryResponse) {
 		got[n] = x
 		e.nRes++
 	}
-	s.logf("<%s %d", typ, len(got))
+	s.logf("<%s %d v=%s", typ, len(got), resp.VersionInfo)
 	old := e.held[typ]
 	switch typ {
 	case "CDS", "LDS":
@@ -409,8 +421,11 @@ func (s deltaStream) Send(resp *discovery.DeltaDiscoveryResponse) error {
 		e.applyDelta(s.stream, resp)
 	}
 	if stop {
-		s.logf("CUT after response %d applied=%v", s.nResp, apply)
+		s.logf("CUT at response %d (%s) applied=%v failed-send=%v", s.nResp, shortType(resp.TypeUrl), apply, s.cutErr)
 		s.kill()
+		if !apply && s.cutErr {
+			return errClosed
+		}
 	}
 	return nil
 }
@@ -425,7 +440,7 @@ func (e *envoy) applyDelta(s *stream, resp *discovery.DeltaDiscoveryResponse) {
 	if e.held[typ] == nil {
 		e.held[typ] = map[string]resEntry{}
 	}
-	wildcard := typ == "CDS" || typ == "LDS"
+	wildcard := typ == "CDS" || typ == "LDS" || typ == "WDS" // a ztunnel takes whatever WDS resource it is sent
 	want := map[string]bool{}
 	for _, n := range e.subs[typ] {
 		want[n] = true
@@ -437,6 +452,7 @@ func (e *envoy) applyDelta(s *stream, resp *discovery.DeltaDiscoveryResponse) {
 		}
 		_, x := canonRes(r.Resource)
 		x.Ver = r.Version
+		x.Alias = r.Aliases
 		e.held[typ][r.Name] = x
 	}
 	if s.removedSeen[typ] == nil {
@@ -447,7 +463,11 @@ func (e *envoy) applyDelta(s *stream, resp *discovery.DeltaDiscoveryResponse) {
 		s.removedSeen[typ][n] = true
 		e.nRemoved++
 	}
-	s.logf("<%s +%d -%d", typ, len(resp.Resources), len(resp.RemovedResources))
+	if typ == "CDS" && len(resp.RemovedResources) > 0 && len(resp.RemovedResources) <= 6 {
+		s.logf("<%s +%d -%d v=%s removed=%s", typ, len(resp.Resources), len(resp.RemovedResources), resp.SystemVersionInfo, strings.Join(resp.RemovedResources, ","))
+	} else {
+		s.logf("<%s +%d -%d v=%s", typ, len(resp.Resources), len(resp.RemovedResources), resp.SystemVersionInfo)
+	}
 	// ACK
 	s.sendDelta(typ, nil, nil, resp.Nonce, nil)
 	switch typ {
@@ -582,6 +602,7 @@ type connectOpts struct {
 	keepNonce bool     // SotW reconnect: present the old response_nonce too (older Envoys; a restarted istiod sees this as well)
 	cutAfter  int
 	cutDrop   bool
+	cutErr    bool
 	hold      bool // do not send the first requests yet (the caller does via kick)
 }
 
@@ -592,7 +613,7 @@ func (e *envoy) connect(st *site, o connectOpts) *stream {
 	base := peer.NewContext(context.Background(), &peer.Peer{Addr: &net.TCPAddr{IP: net.IPv4(127, 0, 0, 1), Port: 15010}})
 	ctx, cancel := context.WithCancel(base)
 	s := &stream{e: e, ctx: ctx, cancel: cancel, done: make(chan struct{}), resps: map[string]int{}, reqs: map[string]int{},
-		removedSeen: map[string]map[string]bool{}, nonces: map[string]string{}, cutAfter: o.cutAfter, cutDrop: o.cutDrop}
+		removedSeen: map[string]map[string]bool{}, nonces: map[string]string{}, cutAfter: o.cutAfter, cutDrop: o.cutDrop, cutErr: o.cutErr}
 	s.reconnect = len(e.nResp) > 0
 	s.touch()
 	if e.delta {
@@ -633,6 +654,10 @@ func (e *envoy) connect(st *site, o connectOpts) *stream {
 
 // firstRequests sends the first request per type of a stream: caller holds e.mu.
 func (e *envoy) firstRequests(s *stream, o connectOpts) {
+	if e.zt != "" {
+		e.ztFirstRequest(s)
+		return
+	}
 	order := o.order
 	if order == nil {
 		order = []string{"CDS", "LDS", "EDS", "RDS"}
